@@ -114,6 +114,14 @@ def run_unit(unit, repo="/repo", extra_args=None, timeout=900):
     r = UnitResult(unit)
     os.makedirs(BUILD, exist_ok=True)
     spec = os.path.join(VERIF, "contracts", unit + ".vspec")
+    if unit == "derive":
+        # generated contract: real expansion of the derive for the struct catalogue (tools/derive_unit.py)
+        import derive_unit
+        try:
+            spec = derive_unit.prepare(repo)
+        except Exception as e:
+            r.status = "undecided"; r.reason = "derive expansion / contract generation failed: " + str(e)[:1500]
+            return r
     out = os.path.join(BUILD, unit + ".rs")
     rep = os.path.join(BUILD, unit + ".report.json")
     r.out_file = out
@@ -139,7 +147,7 @@ def run_unit(unit, repo="/repo", extra_args=None, timeout=900):
         for lm in LABEL_RE.finditer(ln):
             r.labels_present.setdefault(lm.group(2), set()).update(lm.group(1).split(","))
     r.assumptions = scan_assumptions(gen)
-    cmd = ["verus", os.path.basename(out), "--output-json", "--time", "--multiple-errors", "8", "--num-threads", "8"] + (extra_args or [])
+    cmd = ["verus", os.path.basename(out), "--output-json", "--time", "--multiple-errors", "40", "--num-threads", "8"] + (extra_args or [])
     r.cmd = " ".join(cmd)
     try:
         p = subprocess.run(cmd, cwd=BUILD, capture_output=True, text=True, timeout=timeout)
@@ -185,10 +193,7 @@ def run_unit(unit, repo="/repo", extra_args=None, timeout=900):
         first = next((e for e in errs if e["code"]), errs[0] if errs else None)
         r.reason = "verus rejected the extracted text: " + (first["text"][:1500] if first else p.stderr[-1500:])
         return r
-    if "rlimit" in p.stderr and "exceeded" in p.stderr or "Resource limit" in p.stderr:
-        r.status = "undecided"; r.reason = "rlimit exceeded: " + p.stderr[-1500:]
-        r.failed = errs
-        return r
+    rlimit_hit = ("rlimit" in p.stderr and "exceeded" in p.stderr) or "Resource limit" in p.stderr
     if r.errors == 0 and vr.get("success"):
         r.status = "ok"
         if r.verified == 0:
@@ -205,4 +210,7 @@ def run_unit(unit, repo="/repo", extra_args=None, timeout=900):
             e["fn"], e["impl"] = fn, impl
     r.failed = errs
     r.status = "violation"
+    if rlimit_hit:
+        # a resource-limit hit in one function is not a verdict about it; labelled failures elsewhere still count
+        r.reason = "rlimit exceeded in at least one function (undecided for it)"
     return r
